@@ -66,6 +66,7 @@ type Options struct {
 	StrictHandlerErr  bool            `json:"strict_handler_error,omitempty"`
 	StrictForeign     bool            `json:"strict_foreign,omitempty"` // strict middleware 0 lets the handler run and hands back a value that is no response object of the operation
 	Entry             string          `json:"entry,omitempty"`               // which generated entry point mounts the server: "" (with options), plain, from_mux, from_mux_base
+	MwWrites          int             `json:"mw_writes,omitempty"`           // k > 0: per-operation middleware k-1 sends the response header itself and then passes on (does not short-circuit)
 	Warmup            int             `json:"warmup,omitempty"`              // identical requests served on the same handler before the observed one
 	StrictWithOptions bool            `json:"strict_with_options,omitempty"` // net/http flavours: NewStrictHandlerWithOptions
 }
